@@ -138,7 +138,7 @@ pub fn run(ctx: &Ctx, rep: &mut Report) {
         break;
       }
       let named = rng.pick(&singles).inscriptions[0];
-      let amount = rng.range(1_000, 50_000);
+      let mut amount = rng.range(1_000, 50_000);
 
       // mostly one defect at a time, so that each clause is the only thing
       // between the PSBT and a signature
@@ -179,6 +179,11 @@ pub fn run(ctx: &Ctx, rep: &mut Report) {
           8 if !foreign.is_empty() => foreign[0].1 = Sig::OtherWitness,
           9 if !foreign.is_empty() => foreign[0].1 = Sig::ScriptSig,
           10 => foreign.clear(),
+          12 => {
+            // the wallet *loses* exactly the stated amount (or gains nothing)
+            amount = rng.range(600, right.value.saturating_sub(700).max(601));
+            delta = if rng.chance(2, 3) { -2 * amount as i64 } else { -(amount as i64) };
+          }
           11 => {
             // a second wallet output that arrives signed, like a buyer input
             let others: Vec<&Owned> = alive.iter().filter(|o| o.outpoint != right.outpoint).collect();
